@@ -94,20 +94,25 @@ def run_history(cfg, servers, events):
     H.time = clock
     escapes = []
     bypass = []
+    evictions = []
     try:
         hc = HC(servers, retry_attempts=ra, retry_timeout=rt, dead_timeout=dt, ignore_exc=ign)
         ever_failed = set()
+        from pymemcache.client.rendezvous import RendezvousHash
+        full = RendezvousHash([hs.server_name(s) for s in servers])
         for i, e in enumerate(events):
             if e[0] == "adv":
                 clock.last += e[1]
             elif e[0] == "fail":
                 down[hs.server_name(servers[e[1]])] = True
+                ever_failed.add(hs.server_name(servers[e[1]]))
             elif e[0] == "heal":
                 down[hs.server_name(servers[e[1]])] = False
             else:
                 _, kind, keys = e
                 before = {n: len(c) for n, c in contacts.items()}
                 nodes_before = list(hc.hasher.nodes)
+                raised = False
                 try:
                     if kind == "get":
                         hc.get(keys[0])
@@ -123,6 +128,20 @@ def run_history(cfg, servers, events):
                     from pymemcache.exceptions import MemcacheError
                     kindx = "server" if isinstance(ex, OSError) else ("all-down" if type(ex) is MemcacheError else "internal:" + type(ex).__name__)
                     escapes.append((i, kindx, ign))
+                    raised = True
+                for n in nodes_before:
+                    if n not in hc.hasher.nodes:
+                        log = contacts[n][:before[n]]
+                        k = 0
+                        while k < len(log) and not log[-1 - k][1]:
+                            k += 1
+                        evictions.append((i, n, k))
+                used = [] if raised else keys if kind in ("set_many", "get_many") else keys[:1]
+                for k in used:
+                    own = full.get_node(k)
+                    if own not in ever_failed and len(contacts[own]) == before[own]:
+                        bypass.append((i, k, own))
+        run_history.extra = (evictions, bypass)
         return contacts, escapes, sorted(hc.hasher.nodes), dict(hc._dead_clients), clock.last
     finally:
         H.time = saved
@@ -161,19 +180,23 @@ def search(ctx):
     rng = ctx.rng
     found = []
     nh = 0
-    for trial in range(250 if ctx.quick else 4000):
-        nserv = rng.choice([2, 3])
+    def judge(cfg, nserv, events):
         servers = SERVERS[:nserv]
-        cfg = (rng.choice([0, 1, 2, 3]), 5, 30, rng.random() < 0.5)
-        events = history(rng, nserv, rng.randrange(5, 40))
-        nh += 1
         contacts, escapes, nodes, dead, tend = run_history(cfg, servers, events)
+        evictions, bypass = run_history.extra
         why = None
         for name, log in contacts.items():
             ok = ctx.oracle.call(1, cfg[0], cfg[1], cfg[2], [(t, o) for t, o in log])[1]
             if not ok:
                 why = "server %s was probed too often while failing (contact log %r)" % (name, log[:30])
                 break
+        if why is None and cfg[0] > 0:
+            early = [e for e in evictions if e[2] < 2]
+            if early:
+                why = ("with retries configured, server %s was taken out of rotation at event %d after %d consecutive failed contact(s) "
+                       "(its contact log %r)" % (early[0][1], early[0][0], early[0][2], contacts[early[0][1]][-12:]))
+        if why is None and bypass:
+            why = "server %s never failed, yet the call at event %d on its key %r did not reach it" % (bypass[0][2], bypass[0][0], bypass[0][1])
         if why is None:
             bad = [e for e in escapes if e[1].startswith("internal") or e[2]]
             if bad:
@@ -193,6 +216,28 @@ def search(ctx):
         if why:
             found.append({"clause": why, "input": {"retry_attempts": cfg[0], "retry_timeout": cfg[1], "dead_timeout": cfg[2], "ignore_exc": cfg[3],
                                                     "servers": nserv, "events": repr(events)}, "size": len(events), "case": repr((cfg, nserv, events))})
+
+    for trial in range(250 if ctx.quick else 4000):
+        nserv = rng.choice([2, 3])
+        cfg = (rng.choice([0, 1, 2, 3]), 5, 30, rng.random() < 0.5)
+        events = history(rng, nserv, rng.randrange(5, 40))
+        nh += 1
+        judge(cfg, nserv, events)
+    # blip episodes: a server fails for one call of kind a and answers the retry of kind b, twice (thrice in the thorough tier), for every
+    # pair of call kinds - a successful retry must clear the failure record whichever call made it
+    kinds = ["get", "set", "set_many", "get_many", "delete"]
+    import itertools as _it
+    for reps in ((2,) if ctx.quick else (2, 3)):
+        for pair in _it.product(_it.product(kinds, kinds), repeat=reps):
+            if ctx.quick and len({k for ab in pair for k in ab}) > 2:
+                continue
+            for ra in (1, 2):
+                for ign in (False, True):
+                    events = []
+                    for a, b in pair:
+                        events += [("fail", 0), ("fail", 1), ("op", a, KEYS[:3]), ("heal", 0), ("heal", 1), ("adv", 6), ("op", b, KEYS[:3]), ("adv", 11)]
+                    nh += 1
+                    judge((ra, 5, 30, ign), 2, events)
     # the ignore_exc + set_many path specifically (a refusing server must be marked, not contacted on every call)
     for ra in (0, 1, 2):
         events = [("fail", 0), ("fail", 1)] + [("op", "set_many", KEYS[:3])] * 6
